@@ -81,9 +81,10 @@ def spread2d(obs, msk=None, nodata=0, frc=None, latlon=False, transform=IDENTITY
     q = [(np.float32(0), np.uint32(0), np.uint32(0)) for _ in range(0)]
     heapq.heapify(q)
 
+    nan = np.isnan(nodata)  # a NaN nodata value never compares equal
     for r in range(nrow):
         for c in range(ncol):
-            if obs[r, c] != nodata:
+            if obs[r, c] != nodata and not (nan and np.isnan(obs[r, c])):
                 if msk is None or msk[r, c]:
                     heapq.heappush(q, (np.float32(0), np.uint32(r), np.uint32(c)))
                 src[r, c] = r * ncol + c
